@@ -604,6 +604,12 @@ func runDB(cfg *config) {
 			}
 			runHistory(cfg, id, rr, o)
 		}
+	case "c14":
+		n := 10 * cfg.scale
+		for i := 0; i < n; i++ {
+			id++
+			runFailures(cfg, id, r.Fork())
+		}
 	case "c02":
 		n := 12 * cfg.scale
 		for i := 0; i < n; i++ {
@@ -664,4 +670,96 @@ func replayDB(cfg *config, id int, lines []string) {
 			d.recoverDB()
 		}
 	}
+}
+
+// runFailures: every kind of failing statement, with the invalid row at every position k.
+func runFailures(cfg *config, id int, r *hx.Rng) {
+	cfg.tr.Case(id)
+	d := &rdb{cfg: cfg, name: fmt.Sprintf("f%d", id)}
+	defer d.close()
+	d.createdb()
+	t := &gtable{name: "t1", cols: []gcol{{"a", "int"}, {"b", "varchar"}, {"c", "varchar"}, {"d", "boolean"}}}
+	d.stmt(createText(t))
+	u := &gtable{name: "u1", cols: []gcol{{"x", "bigint"}}}
+	d.stmt(createText(u))
+	// some content first (so that splits are close)
+	var rows [][]interface{}
+	for i, n := 0, r.Range(0, 12); i < n; i++ {
+		rows = append(rows, []interface{}{int64(i), "b", "c", true})
+	}
+	if len(rows) > 0 {
+		d.insertv("t1", nil, rows)
+	}
+	check := func() {
+		d.selectEvery()
+		switch r.Intn(4) {
+		case 0:
+			d.reopen()
+			d.selectEvery()
+		case 1:
+			d.crash()
+			if res := d.recoverDB(); res == "ok" || res == "initerr" {
+				d.selectEvery()
+			}
+		}
+	}
+	steps := r.Range(4, 9)
+	for s := 0; s < steps && d.rs != nil; s++ {
+		n := r.Range(1, 11)
+		k := r.Intn(n) // position of the invalid row
+		good := func(i int) []interface{} { return []interface{}{int64(100*s + i), "ok", "row", false} }
+		switch r.Intn(8) {
+		case 0, 1, 2: // multi-row INSERT, k-th row invalid
+			var rs [][]interface{}
+			for i := 0; i < n; i++ {
+				row := good(i)
+				if i == k {
+					switch r.Intn(4) {
+					case 0:
+						row[0] = "x"
+					case 1:
+						row[0] = int64(2147483648)
+					case 2:
+						row[1] = strings.Repeat("y", 401)
+					default:
+						row = row[:3]
+					}
+				}
+				rs = append(rs, row)
+			}
+			d.insertv("t1", nil, rs)
+		case 3: // UPDATE that makes exactly one row too large
+			d.stmt("DELETE FROM t1")
+			var rs [][]interface{}
+			for i := 0; i < n; i++ {
+				c := "small"
+				if i == k {
+					c = strings.Repeat("z", 380)
+				}
+				rs = append(rs, []interface{}{int64(i), "b", c, true})
+			}
+			d.insertv("t1", nil, rs)
+			d.selectEvery()
+			d.stmt("UPDATE t1 SET b = '" + strings.Repeat("w", 30) + "'")
+		case 4: // UPDATE with a value of the wrong type
+			d.stmt("UPDATE t1 SET a = 'text'")
+		case 5:
+			d.stmt("CREATE TABLE t1 (q int)")
+			d.stmt("INSERT INTO nosuch VALUES (1)")
+			d.stmt("UPDATE nosuch SET a = 1")
+			d.stmt("DELETE FROM nosuch")
+		case 6:
+			name := fmt.Sprintf("big%d", s)
+			d.stmt("CREATE TABLE " + name + " (a int, b varchar(99999999999))")
+			d.selectAll(name)
+		default:
+			d.stmt("INSERT INTO u1 VALUES (1), (2), ('three'), (4)")
+			d.stmt("INSERT INTO u1 (x) VALUES (1, 2)")
+		}
+		check()
+	}
+	if d.rs != nil {
+		d.dump()
+	}
+	cfg.st.Seen(fmt.Sprint(id), true)
 }
